@@ -21,20 +21,14 @@ def replay_filter_stack(items):
     return out
 
 
-def replay_walk_errors(items):
-    return []
 
 
 def replay_depth_walks(items):
     return []
 
 
-def replay_negation_walks(items):
-    return []
 
 
-def replay_escape(items):
-    return []
 
 
 # ---------------------------------------------------------------------------------------------
@@ -204,4 +198,259 @@ def replay_range_soundness(items):
                             {"short": {"expression": e, "depth": d, "matches": paths[k], "components": k},
                              "battery": len(live)}))
                 break
+    return out
+
+
+# ---------------------------------------------------------------------------------------------
+# walk entries: real walks of prefixed / rooted globs from several spellings of the base
+# ---------------------------------------------------------------------------------------------
+
+ENTRY_TREE = ["b/", "b/p/", "b/p/q/", "b/p/q/1/", "b/p/q/1/2", "b/p/1/", "b/p/1/2/", "b/p/1/2/3", "b/1",
+              "b/c/", "b/c/p/", "b/c/p/1", "1"]
+
+
+def _ncomp(p):
+    return len([c for c in p.split("/") if c not in ("",)])
+
+
+def _entry_battery():
+    from core import probe
+    cmds, meta = [], []
+    for base in ["b", "b/", ".", "./b", "b/c", "{ROOT}/b"]:
+        for glob in ["**", "p/**", "p/q/**", "../b/**", "{ROOT}/b/p/**", "p/*/2"]:
+            if glob.startswith("../") and base in (".", "{ROOT}/b"):
+                continue
+            cmds.append({"op": "walk", "tree": ENTRY_TREE, "base": base, "glob": glob, "stack": []})
+            meta.append((base, glob))
+    rows = probe(cmds)
+    bad = []
+    n_entries = 0
+    for (base, glob), row in zip(meta, rows):
+        if not row or not row.get("ok"):
+            bad.append({"base": base, "glob": glob, "error": str(row)[:200]})
+            continue
+        rooted = glob.startswith("{ROOT}")
+        for it in row["items"]:
+            if it.get("error"):
+                continue
+            n_entries += 1
+            problems = []
+            if not it["joined_eq"]:
+                problems.append("root.join(relative) != path")
+            n = _ncomp(it["relative"])
+            if rooted:
+                if it["root_raw"] != "":
+                    problems.append("root segment of a rooted glob is not empty")
+                if it["depth"] not in (n, n + 1):
+                    problems.append("rooted-entry-depth")
+            else:
+                want = base.replace("{ROOT}", row["tmp"]).rstrip("/")
+                if it["root_raw"].rstrip("/") != want:
+                    problems.append("root segment is not the directory given to the walk")
+                if it["depth"] != n:
+                    problems.append("depth != components(relative)")
+            if it.get("cand") != it["relative"] or it.get("matched") != it["relative"]:
+                problems.append("matched text / candidate path is not the relative segment")
+            if problems:
+                bad.append({"base": base, "glob": glob, "entry": it["path"], "root": it["root_raw"],
+                            "relative": it["relative"], "depth": it["depth"], "problems": problems})
+    return len(cmds), n_entries, bad
+
+
+def _entry_results():
+    n, n_entries, bad = _entry_battery()
+    out = []
+    seen = set()
+    for b in bad:
+        probs = tuple(b.get("problems", ["error"]))
+        key = (b["base"], b["glob"], probs)
+        if key in seen:
+            continue
+        seen.add(key)
+        roles = {"walk-entry-inconsistent"}
+        if probs == ("rooted-entry-depth",):
+            roles = {"rooted-entry-depth"}
+        out.append((roles, {"short": dict(b, scenario="real walk; entry fields compared with the statement"),
+                            "battery": n, "entries": n_entries}))
+    return out
+
+
+def replay_entry_rows(items):
+    return [x for x in _entry_results() if "rooted-entry-depth" not in x[0]]
+
+
+def replay_entry_rows_depth(items):
+    return _entry_results()
+
+
+# ---------------------------------------------------------------------------------------------
+# glob walks: yielded set against per-path matching, on a real directory tree
+# ---------------------------------------------------------------------------------------------
+
+WALK_TREE = ["b/", "b/p/", "b/p/1/", "b/p/1/2/", "b/p/1/2/x", "b/p/1/y", "b/p/z", "b/q/", "b/q/1", "b/w",
+             "c/", "c/1/", "c/1/2", "c/v"]
+
+
+def _walk_battery():
+    """(base, glob) pairs; expected = every entry beneath the walk root whose base-relative path
+    (or whole path for a rooted glob) the real is_match accepts."""
+    from core import probe
+    cases = []
+    for glob in ["**", "*", "*/*", "p/**", "p/*/*", "p/*/*/x", "p/1/**", "**/x", "p/**/y", "q/*", "{p,q}/*",
+                 "p/<*/:1,2>*", "w", "p", ""]:
+        cases.append(("b", glob, "plain"))
+    for glob in ["../c/**", "../c/*", "../c/*/*", "../b/p/*"]:
+        cases.append(("b", glob, "parent"))
+    for glob in ["{ROOT}/b/**", "{ROOT}/b/*", "{ROOT}/b/*/*", "{ROOT}/b/p/*/*", "{ROOT}/b/p/**/x", "{ROOT}/c/1/*"]:
+        cases.append(("c", glob, "rooted"))
+    rows = probe([{"op": "walk", "tree": WALK_TREE, "base": b, "glob": g, "stack": []} for b, g, _ in cases])
+    bad = []
+    for (base, glob, kind), row in zip(cases, rows):
+        if not row or not row.get("ok"):
+            bad.append({"base": base, "glob": glob, "kind": kind, "error": str(row)[:200]})
+            continue
+        tmp = row["tmp"]
+        # candidate entries: everything in the scratch tree, as paths relative to the scratch root
+        all_entries = [""] + [t.rstrip("/") for t in WALK_TREE]
+        cands = {}
+        for e in all_entries:
+            absolute = tmp + ("/" + e if e else "")
+            if kind == "rooted":
+                cands[e] = absolute
+            elif kind == "parent":
+                # relative to base through `..`: base/../x
+                if e == "" or e == base:
+                    cands[e] = ".." if e == "" else "../" + base
+                else:
+                    cands[e] = "../" + e
+            else:
+                if e == base:
+                    cands[e] = ""
+                elif e.startswith(base + "/"):
+                    cands[e] = e[len(base) + 1:]
+        g = glob.replace("{ROOT}", tmp)
+        ms = probe([{"op": "match", "target": {"glob": g}, "paths": list(cands.values())}])[0]
+        if not ms.get("ok"):
+            bad.append({"base": base, "glob": glob, "kind": kind, "error": str(ms)[:200]})
+            continue
+        expected = {e for (e, c), r in zip(cands.items(), ms["results"]) if r["m"]}
+        import os.path as _op
+        got = [(_op.normpath(i["path"]) if i["path"] else "") for i in row["items"] if not i.get("error")]
+        got = ["" if x == "." else x for x in got]
+        gotset = set(got)
+        # the base itself is yielded *only if* the glob matches the empty path (not: iff)
+        if kind == "plain" and base in expected and base not in gotset:
+            expected.discard(base)
+        if gotset != expected or len(got) != len(gotset):
+            bad.append({"base": base, "glob": glob, "kind": kind, "missing": sorted(expected - gotset),
+                        "unexpected": sorted(gotset - expected), "duplicates": len(got) - len(gotset)})
+    return len(cases), bad
+
+
+def _walk_results(kinds):
+    n, bad = _walk_battery()
+    out = []
+    for b in bad:
+        if b["kind"] not in kinds:
+            continue
+        role = {"plain": "walk-mismatch", "parent": "parent-prefix-walk-mismatch",
+                "rooted": "rooted-walk-mismatch"}[b["kind"]]
+        out.append(({role}, {"short": dict(b, scenario="real walk of the glob vs. real is_match on every entry of the tree"),
+                             "battery": n}))
+    return out
+
+
+def replay_closure(items):
+    return _walk_results({"plain"})
+
+
+def replay_closure_rooted(items):
+    return _walk_results({"rooted"}) or _walk_results({"plain"})
+
+
+def replay_closure_parent(items):
+    return _walk_results({"parent"}) or _walk_results({"plain"})
+
+
+# ---------------------------------------------------------------------------------------------
+# escaping, negations, error items: small public-API batteries
+# ---------------------------------------------------------------------------------------------
+
+def replay_escape(items):
+    import itertools
+    from core import probe
+    meta = "?*$:<>()[]{},"
+    alphabet = list(meta) + ["/", "-", "a", ".", " ", "\u91d1", "\U0001F600", "\u00e9"]
+    strs = ["".join(t) for k in (1, 2) for t in itertools.product(alphabet, repeat=k) if "//" not in "".join(t)]
+    rows = probe([{"op": "esc", "raw": x} for x in strs])
+    out = []
+    for x, row in zip(strs, rows):
+        expected = "".join(("\\" + c) if c in meta else c for c in x)
+        if not row or row.get("escaped") != expected or row.get("borrowed") != (expected == x):
+            out.append(({"escape-output-wrong"}, {"short": {"text": x, "escaped": row and row.get("escaped"),
+                                                            "borrowed": row and row.get("borrowed"), "expected": expected}}))
+            if len(out) > 10:
+                break
+    mrow = probe([{"op": "meta", "chars": "".join(alphabet)}])[0]
+    for c, m, cm in zip(alphabet, mrow["meta"], mrow["contextual"]):
+        if m != (c in meta) or cm != (c == "-"):
+            out.append(({"meta-predicate-wrong"}, {"short": {"char": c, "is_meta": m, "is_contextual": cm}}))
+    return out
+
+
+NEG_TREE = ["b/", "b/a/", "b/a/x", "b/a/y/", "b/a/y/z", "b/c", "b/d/", "b/d/a/", "b/d/a/w", "b/d/e", "b/f.rs"]
+NEGATIONS = [["a/**"], ["**/a/**"], ["a"], ["**/a"], ["*.rs"], ["**/*.rs", "d/**"], ["a/**", "c"], ["d/*"], [""],
+             ["**/{x,w}"], ["a/y/**", "**/e"]]
+
+
+def replay_negation_walks(items):
+    from core import probe
+    rels = [""] + [t.rstrip("/")[2:] for t in NEG_TREE if t != "b/"]
+    cmds = [{"op": "walk", "tree": NEG_TREE, "base": "b", "glob": None,
+             "stack": [{"not": {"pats": pats, "mode": "any_text"}}]} for pats in NEGATIONS]
+    rows = probe(cmds)
+    ms = probe([{"op": "match", "target": {"any": pats, "mode": "text"}, "paths": rels} for pats in NEGATIONS])
+    out = []
+    for pats, row, m in zip(NEGATIONS, rows, ms):
+        if not row.get("ok") or not m.get("ok"):
+            out.append(({"negation-walk-mismatch"}, {"short": {"negation": pats, "error": str(row)[:150]}}))
+            continue
+        expected = {r for r, x in zip(rels, m["results"]) if not x["m"]}
+        got = {i["relative"] for i in row["items"] if not i.get("error")}
+        if got != expected:
+            out.append(({"negation-walk-mismatch"},
+                        {"short": {"negation": pats, "missing": sorted(expected - got),
+                                   "unexpected": sorted(got - expected),
+                                   "scenario": "real walk with not(any(patterns)) vs. filtering every entry with any.is_match"}}))
+    return out
+
+
+ERR_TREE = ["b/", "b/a/", "b/a/x", "b/c", "b/d/", "b/d/e"]
+ERR_LINKS = [["b/a/loop", "{ROOT}/b"], ["b/d/dangling", "{ROOT}/nowhere"]]
+
+
+def replay_walk_errors(items):
+    """Link cycle and dangling link under ReadTarget: one error item each, naming the path, in
+    place; the remaining entries unaffected; errors pass through combinator stacks unchanged."""
+    from core import probe
+    stacks = [[], [{"filter": {"tree": [], "file": []}}], [{"not": {"pats": ["zzz"], "mode": "any_text"}}],
+              [{"filter": {"tree": [], "file": ["c"]}}, {"not": {"pats": ["d/e"], "mode": "any_text"}}]]
+    cmds = [{"op": "walk", "tree": ERR_TREE, "links": ERR_LINKS, "base": "b", "glob": None, "stack": st,
+             "behavior": {"link": "target"}} for st in stacks]
+    rows = probe(cmds)
+    out = []
+    base_errors = None
+    for st, row in zip(stacks, rows):
+        if not row.get("ok"):
+            out.append(({"walk-error-mismatch"}, {"short": {"stack": st, "error": str(row)[:150]}}))
+            continue
+        errors = sorted((i.get("path") or "", i["depth"]) for i in row["items"] if i.get("error"))
+        entries = {i["relative"] for i in row["items"] if not i.get("error")}
+        want_errors = [("b/a/loop", 2), ("b/d/dangling", 2)]
+        must = {"", "a", "a/x", "d"}
+        if errors != want_errors or not must <= entries:
+            out.append(({"walk-error-mismatch"},
+                        {"short": {"stack": st, "errors": errors, "expected_errors": want_errors,
+                                   "entries": sorted(entries),
+                                   "scenario": "real walk (ReadTarget) over a re-entrant link and a dangling link"}}))
     return out
